@@ -88,4 +88,109 @@ theorem intros_eval_spec (intros : List Thm) (body th : Thm) (he : introsEval in
     · simp at he
 example : introsEval [Thm.assume exA] ⟨[exA, exB], exB⟩ = some ⟨[exB], Term.mkImplies exA exB⟩ := by decide
 
+/-- `apply_theorem` on a first-order monomorphic theorem `ax` without hypotheses, with an
+instantiation `inst` (the matcher's answer, any) whose type part is complete and which leaves no
+schematic variable: whenever the evaluation reports `th` and the checker accepts the exported script
+(`theorem`, `substitution`, one `implies_elim` per premise), the script's last theorem is exactly
+`th` — the same conclusion and the same list of hypotheses. -/
+theorem macro_eval_eq_expand_apply_theorem (axs : List (String × Thm)) (name : String) (ax : Thm)
+    (inst : Term.Inst) (prevs : List Thm) (th : Thm) (res : List Thm) (p' : Term)
+    (hax : axs.lookup name = some ax) (hh : ax.hyps = [])
+    (htc : Term.subst inst ax.prop = .ok (p', inst.tyinst))
+    (he : applyTheoremEval axs name inst prevs = some th)
+    (hr : runScriptAx axs (applyTheoremScript name inst prevs.length) prevs = .ok res) :
+    res.getLast? = some th := by
+  obtain ⟨ah, ap⟩ := ax
+  simp only at hh htc
+  subst hh
+  -- the `theorem` line
+  simp only [applyTheoremScript, runScriptAx, beq_self_eq_true, Bool.true_or, if_true] at hr
+  have e0 : applyRuleAx axs "theorem" (.name name) [] = .ok ⟨[], ap⟩ := by
+    simp [applyRuleAx, hax]
+  simp only [checkStepSt, e0, finishStep] at hr
+  have hty0 : (⟨[], ap⟩ : Thm).checkThmTypeSig = true := by
+    cases hX : (⟨[], ap⟩ : Thm).checkThmTypeSig with
+    | true => rfl
+    | false => simp [hX] at hr
+  simp only [hty0, if_true] at hr
+  -- the `substitution` line
+  have e1 : ("substitution" == "theorem" || "substitution" == "variable") = false := by decide
+  simp only [e1, Bool.false_eq_true, if_false] at hr
+  have e2 : lookupPrems (prevs ++ [⟨[], ap⟩]) [prevs.length] = .ok [⟨[], ap⟩] := by simp [lookupPrems]
+  simp only [e2] at hr
+  have e3 : applyRuleAx axs "substitution" (.prim (.inst inst)) [⟨[], ap⟩] = .ok ⟨[], p'⟩ := by
+    have f1 : ("substitution" == "theorem") = false := by decide
+    have f2 : ("substitution" == "variable") = false := by decide
+    simp [applyRuleAx, f1, f2, applyRule, substitution_complete inst ap p' htc]
+  simp only [checkStepSt, e3, finishStep] at hr
+  have hty1 : (⟨[], p'⟩ : Thm).checkThmTypeSig = true := by
+    cases hX : (⟨[], p'⟩ : Thm).checkThmTypeSig with
+    | true => rfl
+    | false => simp [hX] at hr
+  simp only [hty1, if_true] at hr
+  -- the `implies_elim` lines
+  have hlen : (prevs ++ [(⟨[], ap⟩ : Thm)]).length = prevs.length + 1 := by simp
+  have hp : ∀ m (hm : m < prevs.length), (prevs ++ [(⟨[], ap⟩ : Thm)])[0 + m]? = some prevs[m] := by
+    intro m hm
+    simp [List.getElem?_append_left hm]
+  obtain ⟨final, hf1, hf2, hf3⟩ :=
+    run_elimSteps axs prevs (prevs ++ [(⟨[], ap⟩ : Thm)]) (⟨[], p'⟩ : Thm) 0 res hp hty1 (by rw [hlen]; exact hr)
+  obtain ⟨hs1, hs2⟩ := elimAll_spec prevs _ final hf1
+  rw [hf2]
+  -- the evaluation
+  simp only [applyTheoremEval, hax, htc] at he
+  have hle : prevs.length ≤ (stripImplies ap).1.length := by
+    cases hX : decide (prevs.length ≤ (stripImplies ap).1.length) with
+    | true => exact of_decide_eq_true hX
+    | false => simp [of_decide_eq_false hX] at he
+  simp only [hle, if_true, Option.some.injEq] at he
+  subst he
+  have hsig : sigOK final.prop = true := by
+    simp only [Thm.checkThmTypeSig, Thm.sigOK, Bool.and_eq_true] at hf3
+    exact hf3.2.2
+  have hprop := mkImpliesList_strip final.prop hsig
+  rw [hs2] at hprop
+  simp only at hprop
+  cases final with
+  | mk fh fp =>
+    simp only at hs1 hprop
+    simp only [Thm.mk', List.foldl_cons, addTuple_nil]
+    rw [hprop, hs1]
+/-- example: `conjD1 : A ∧ B → A` as a theorem `P → Q` over propositional atoms, instantiated and
+applied to a premise -/
+def exAxs : List (String × Thm) := [("mp_ax", ⟨[], Term.mkImplies (.svar "P" Ty.bool) (.svar "Q" Ty.bool)⟩)]
+def exInst : Term.Inst := ⟨[], [("P", exA), ("Q", exB)], []⟩
+/-- the instantiation of the example is type-complete -/
+private theorem ex_subst : Term.subst exInst (Term.mkImplies (.svar "P" Ty.bool) (.svar "Q" Ty.bool)) =
+      .ok (Term.mkImplies exA exB, exInst.tyinst) := by
+  simp [Term.subst, exInst, Term.getSvars, Term.svarsAcc, Term.mkImplies, Term.matchSvars, List.lookup, exA, exB,
+    Term.checkedGetType, Ty.matchIncr, Ty.matchIncrList, Ty.bool, Ty.fn, Term.substType, Ty.subst, Term.substRec, bind, Except.bind]
+example : applyTheoremEval exAxs "mp_ax" exInst [⟨[exB], exA⟩] = some ⟨[exB], exB⟩ := by
+  simp only [applyTheoremEval, exAxs, List.lookup, beq_self_eq_true, ex_subst]
+  decide
+example : (runScriptAx exAxs (applyTheoremScript "mp_ax" exInst 1) [⟨[exB], exA⟩]).toOption.map List.getLast? =
+      some (some ⟨[exB], exB⟩) := by
+  have hs : Thm.substitution exInst ⟨[], Term.mkImplies (.svar "P" Ty.bool) (.svar "Q" Ty.bool)⟩ = .ok ⟨[], Term.mkImplies exA exB⟩ :=
+    substitution_complete _ _ _ ex_subst
+  have a1 : applyRuleAx exAxs "theorem" (.name "mp_ax") [] = .ok ⟨[], Term.mkImplies (.svar "P" Ty.bool) (.svar "Q" Ty.bool)⟩ := by
+    simp [applyRuleAx, exAxs, List.lookup]
+  have a2 : applyRuleAx exAxs "substitution" (.prim (.inst exInst)) [⟨[], Term.mkImplies (.svar "P" Ty.bool) (.svar "Q" Ty.bool)⟩] = .ok ⟨[], Term.mkImplies exA exB⟩ := by
+    have f1 : ("substitution" == "theorem") = false := by decide
+    have f2 : ("substitution" == "variable") = false := by decide
+    simp only [applyRuleAx, f1, f2, Bool.false_eq_true, if_false, applyRule, hs]
+  have a3 : applyRuleAx exAxs "implies_elim" (.prim .none) [⟨[], Term.mkImplies exA exB⟩, ⟨[exB], exA⟩] = .ok ⟨[exB], exB⟩ := by
+    have f1 : ("implies_elim" == "theorem") = false := by decide
+    have f2 : ("implies_elim" == "variable") = false := by decide
+    simp only [applyRuleAx, f1, f2, Bool.false_eq_true, if_false, applyRule]
+    rfl
+  have c0 : (⟨[], Term.mkImplies (.svar "P" Ty.bool) (.svar "Q" Ty.bool)⟩ : Thm).checkThmTypeSig = true := by decide
+  have c1 : (⟨[], Term.mkImplies exA exB⟩ : Thm).checkThmTypeSig = true := by decide
+  have c2 : (⟨[exB], exB⟩ : Thm).checkThmTypeSig = true := by decide
+  have e1 : ("substitution" == "theorem" || "substitution" == "variable") = false := by decide
+  have e2 : ("implies_elim" == "theorem" || "implies_elim" == "variable") = false := by decide
+  simp only [applyTheoremScript, elimSteps, runScriptAx, beq_self_eq_true, Bool.true_or, if_true, checkStepSt, a1, finishStep, c0,
+    e1, e2, Bool.false_eq_true, if_false, lookupPrems, List.nil_append, List.cons_append, List.getElem?_cons_succ, List.getElem?_cons_zero,
+    a2, c1, a3, c2]
+  rfl
+
 end Holpy.C04
